@@ -80,6 +80,17 @@ CHECKS["C09"] = dict(
     design="5/C09",
 )
 
+CHECKS["C03"] = dict(
+    technique="generated-input validity search (ast.parse round trip) over every entry point, plus fault injection: stubbed format_code in the file write guard and synthetic unparsable rewrites through processing.fix/chain",
+    text="Valid modules (families, grammar, zoo metamorphs, literal sources, repository examples, stdlib modules, indented fragments) go through "
+         "format_code, every rule, sub/subn with derived patterns and format_file; outputs must parse. format_file is additionally driven with stubbed "
+         "format_code results (invalid / identical / different valid x valid / invalid original) to exercise the write guard, and the rollback net with "
+         "synthetic rules yielding unparsable replacements and with single-statement removals through alter_code.",
+    note="Validity = ast.parse (dedent for fragments; strict for files); crashes are C04's except inside the injected-fault sub-checks where a crash means the validity net failed; one known finding (F-C03-01) excluded by construction.",
+    design="5/C03",
+    category="fault_enumeration",
+)
+
 NOT_YET = {}
 
 
